@@ -7,7 +7,8 @@
    - the latent hole of the validator (float32 profile scalar + sint32
      definition) and why it is unreachable with the compiled profile. *)
 From Coq Require Import NArith ZArith List Bool Arith Lia.
-From FitV Require Import Proofs.Util Model.Values Model.Bytes Model.Base Model.Profile Model.Reflect Model.Decode
+From FitV Require Import Proofs.Util Model.Values Model.Bytes Model.Base Model.Profile Model.Reflect Model.Crc Model.IO
+  Model.Components Model.Route Model.Decode
   Spec.ProfileWf Proofs.ProfileProofs Proofs.DecodeLemmas Proofs.C01Cells Gen.Consts.
 Import ListNotations.
 Local Open Scope N_scope.
@@ -77,3 +78,31 @@ Proof.
   replace (base_storable base_float32) with false by (vm_compute; reflexivity).
   now rewrite andb_false_r.
 Qed.
+
+(* ---- non-vacuity: a concrete stream and reader *)
+(* a valid activity file: file_id (type 4), a record definition (timestamp uint32, heart_rate uint8) and one record;
+   12-byte header, file CRC computed by the model's CRC *)
+Definition ex_body : list N :=
+  [12; 32; 0x47; 8; 29; 0; 0; 0; 46; 70; 73; 84;
+   0x40; 0; 0; 0; 0; 1; 0; 1; 0;   0; 4;
+   0x41; 0; 1; 0; 20; 2; 253; 4; 0x86; 3; 1; 2;   1; 0; 0; 0; 0x40; 150].
+Definition ex_stream : list N :=
+  let c := crc_sum16 (crc_write crc_new ex_body) in ex_body ++ [c mod 256; c / 256].
+(* small reads with an empty read in between, EOF delivered with the last byte *)
+Definition ex_reader : reader := mk_reader ex_stream [1; 0; 1; 3; 1; 1; 2; 1; 1; 1; 7; 1]%nat TEOF true 0.
+
+Lemma example_decode : exists r,
+  entry_Decode no_opts g_init ex_reader 100 = TDone r /\ dr_err r = None /\
+  (rd_pos (dr_rd r) = List.length ex_stream)%nat.
+Proof. eexists. split; [vm_compute; reflexivity|]. split; reflexivity. Qed.
+
+Lemma example_hyps :
+  Forall (fun b => b < 256) (rd_data ex_reader) /\
+  (List.length (rd_data ex_reader) + List.length (rd_sched ex_reader) < 100)%nat.
+Proof. split; [repeat constructor|vm_compute; repeat constructor]. Qed.
+
+Lemma example_cells :
+  validate_cell (Some (false, base_uint32)) base_uint16 2 = VOk /\
+  store_safe kind_native false base_uint32 base_uint16 2 = true /\
+  validate_cell (Some (false, base_uint32)) base_uint32 3 = VErr.
+Proof. vm_compute. repeat split. Qed.
